@@ -428,10 +428,35 @@ static struct { int node; int nth; int64_t off; int w; int mode; uint32_t val; }
 static uint64_t g_ptm_fired;
 static void g_ptm_reset(void) { g_ptm.node = -1; g_ptm_fired = 0; }
 void vsim_pt_mutate(int node, int nth, int64_t off, int w, int mode, uint32_t val) { g_ptm.node = node; g_ptm.nth = nth; g_ptm.off = off; g_ptm.w = w < 1 ? 1 : (w > 3 ? 3 : w); g_ptm.mode = mode; g_ptm.val = val; }
+void vsim_pt_short_finished(int node, uint32_t keep) { g_ptm.node = node; g_ptm.nth = 0; g_ptm.off = 0; g_ptm.w = 1; g_ptm.mode = 4; g_ptm.val = keep; }
 uint64_t vsim_pt_mutated(void) { return g_ptm_fired; }
 static unsigned char *ptm_apply(const unsigned char *pt, size_t len)
 {
     if (g_ptm.node < 0 || g_ptm.node != vsim_get_node()) { return NULL; }
+    if (g_ptm.mode == 4)
+    {
+        /* the node's own Finished, re-encoded before sealing with a verify_data of only `val` bytes (a prefix of the right value): the
+           freed room becomes HelloRequest messages (TLS <= 1.2: 00 00 00 00 each; DTLS: one 12-byte all-zero header) or, in TLS 1.3,
+           record padding after the moved inner content type.  The record stays well formed and authenticated. */
+        size_t full, hl; int t13 = 0;
+        if (!pt || pt[0] != 0x14) { return NULL; }
+        if (len == 16) { hl = 4; full = 12; } else if (len == 24 && pt[11] == 12) { hl = 12; full = 12; }
+        else if ((len == 37 || len == 53) && pt[len - 1] == 0x16) { hl = 4; full = len - 5; t13 = 1; } else { return NULL; }
+        size_t keep = g_ptm.val;
+        if (hl == 12) { keep = 0; }
+        if (keep >= full) { keep = full - 4; }
+        if (!t13) { keep &= ~(size_t) 3; }
+        g_ptm.node = -1;
+        unsigned char *t = (unsigned char *) malloc(len);
+        if (!t) { return NULL; }
+        memcpy(t, pt, len);
+        t[1] = 0; t[2] = 0; t[3] = (unsigned char) keep;
+        if (hl == 12) { t[9] = t[10] = 0; t[11] = (unsigned char) keep; }
+        memset(t + hl + keep, 0, len - hl - keep);
+        if (t13) { t[hl + keep] = 0x16; }
+        g_ptm_fired++;
+        return t;
+    }
     if (g_ptm.nth-- > 0) { return NULL; }
     g_ptm.node = -1;
     if (len < (size_t) g_ptm.w || !pt) { return NULL; }
@@ -551,8 +576,9 @@ void __wrap_psAesDecryptCBC(void *ctx, const unsigned char *ct, unsigned char *p
 }
 
 /* byzantine signer */
-static int g_sign_node = -1, g_sign_count; static uint64_t g_sign_corrupted;
-static void g_sign_node_reset(void) { g_sign_node = -1; g_sign_count = 0; g_sign_corrupted = 0; }
+static int g_sign_node = -1, g_sign_count, g_sign_mode; static uint64_t g_sign_corrupted;
+static void g_sign_node_reset(void) { g_sign_node = -1; g_sign_count = 0; g_sign_corrupted = 0; g_sign_mode = 0; }
+void vsim_sign_mode(int mode) { g_sign_mode = mode; }
 void vsim_sign_corrupt(int node, int count) { g_sign_node = node; g_sign_count = count; }
 uint64_t vsim_sign_corrupted(void) { return g_sign_corrupted; }
 int32_t __real_psSign(void *pool, void *privKey, int32_t sigAlg, const unsigned char *in, size_t inLen,
@@ -560,10 +586,21 @@ int32_t __real_psSign(void *pool, void *privKey, int32_t sigAlg, const unsigned 
 int32_t __wrap_psSign(void *pool, void *privKey, int32_t sigAlg, const unsigned char *in, size_t inLen,
     unsigned char **out, uint16_t *outLen, void *opts)
 {
-    int32_t rc = __real_psSign(pool, privKey, sigAlg, in, inLen, out, outLen, opts);
+    int32_t rc;
+    int other_data = g_sign_mode == 1 && g_sign_node == t_node && g_sign_count > 0 && in && inLen > 0;
+    if (other_data)
+    {
+        /* a genuine, well-formed signature by the right key - over data that differs from this handshake's in one bit */
+        unsigned char *tmp = (unsigned char *) malloc(inLen);
+        memcpy(tmp, in, inLen); tmp[inLen / 2] ^= 0x04;
+        rc = __real_psSign(pool, privKey, sigAlg, tmp, inLen, out, outLen, opts);
+        free(tmp);
+        if (rc >= 0) { g_sign_count--; g_sign_corrupted++; }
+    }
+    else { rc = __real_psSign(pool, privKey, sigAlg, in, inLen, out, outLen, opts); }
     vsim_probe_t p; memset(&p, 0, sizeof p);
     p.kind = VSIM_PR_SIGN; p.rc = rc; p.pt_len = (int) inLen; p.pt_digest = vsim_fnv(in, inLen);
-    if (rc >= 0 && out && *out && outLen && *outLen > 8 && g_sign_node == t_node && g_sign_count > 0)
+    if (!other_data && g_sign_mode == 0 && rc >= 0 && out && *out && outLen && *outLen > 8 && g_sign_node == t_node && g_sign_count > 0)
     {
         g_sign_count--;
         (*out)[*outLen - 3] ^= 0x20;   /* inside the last integer / signature block, keeps any DER framing */
